@@ -117,6 +117,7 @@ type TableOptions struct {
 	InteriorZeroDur bool // allow zero deltas before the last sample (outside ISO)
 	BigDeltas       bool // allow deltas that push decode times beyond 2^32
 	ZeroSizes       bool // allow zero-size samples
+	ZeroCountStts   bool // allow stts entries with sample_count 0 (in front of split runs)
 }
 
 func runsOf(r *runner.Rand, n int, maxRun int, value func() int64) []int64 {
@@ -381,6 +382,9 @@ func RandomTables(r *runner.Rand, o TableOptions) *File {
 		t.ChunkLens, t.ChunkDesc, cl = randomChunking(r, n, nDesc)
 		if r.Chance(1, 4) {
 			t.SplitStts = randomCuts(r, n)
+			if o.ZeroCountStts && r.Chance(1, 3) {
+				t.ZeroCountStts = true
+			}
 		}
 		if r.Chance(1, 4) {
 			t.SplitStsc = randomCuts(r, len(t.ChunkLens))
@@ -502,6 +506,8 @@ type MovieOptions struct {
 	// T = ceil((k*2^64-(c-1))/t), k in 1..3, all other tracks are audio with time scale t < c-1: T*t falls in the last c-1
 	// values below 2^64, where rounding the conversion T*t/c up carries out of the low 64-bit word.
 	CarryProbe bool
+	ZeroSizes  bool // some tracks have zero-size samples (whole chunks without a byte when chunks are small)
+	LateSync   bool // some video tracks start inside a GOP: the first sync sample is not sample 1
 }
 
 // RandomMovie generates a multi-track movie whose tracks cover about the same
@@ -729,6 +735,21 @@ func RandomMovie(r *runner.Rand, o MovieOptions) *File {
 				t.Samples[i].Data = stamp(r, ti, i+1, sz)
 			}
 			t.UniformStsz = true
+		} else if o.ZeroSizes && r.Chance(1, 5) {
+			for i := range t.Samples {
+				if r.Chance(1, 3) {
+					t.Samples[i].Data = nil
+				}
+			}
+			label += " zero-size-samples"
+		}
+		if o.LateSync && kind == "video" && t.HasStss && n > 3 && r.Chance(1, 4) {
+			k := r.Range(1, 2)
+			for i := 0; i < k; i++ {
+				t.Samples[i].Sync = false
+			}
+			t.Samples[k].Sync = true
+			label += " first-sync-later"
 		}
 		nDesc := 1
 		if o.MultiDesc && r.Chance(1, 4) {
